@@ -21,12 +21,6 @@ func (h *hist) nonMembers(noPending bool) []int {
 		if _, pj := h.pendJoin[a]; pj && noPending {
 			continue
 		}
-		// noPending lists are the targets of direct AccountsAdd: keep former tree authors out of them, because
-		// re-adding one by AccountsAdd resets its permission history and its old changes stop validating
-		// (DESIGN.md section 5, F-acl-readd; a C01/C02 matter that would only blur the C05 tree oracle)
-		if noPending && h.wrote[a] {
-			continue
-		}
 		res = append(res, a)
 	}
 	return res
